@@ -85,13 +85,16 @@ namespace pika {
         {
             PIKA_ASSERT(update >= 0);
 
+            PIKA_VERIF_POINT("latch.count_down", this, 0, 0);
             std::ptrdiff_t new_count = (counter_ -= update);
+            PIKA_VERIF_POST("latch.dec", this, new_count, update);
             PIKA_ASSERT(new_count >= 0);
 
             if (new_count == 0)
             {
                 std::unique_lock l(mtx_.data_);
                 notified_ = true;
+                PIKA_VERIF_POST("latch.notified", this, 0, 0);
 
                 // Note: we use notify_one repeatedly instead of notify_all as we
                 // know that our implementation of condition_variable::notify_one
@@ -120,6 +123,7 @@ namespace pika {
             std::unique_lock l(mtx_.data_);
             if (counter_.load(std::memory_order_relaxed) > 0 || !notified_)
             {
+                PIKA_VERIF_POST("latch.mustwait", this, counter_.load(std::memory_order_relaxed), notified_ ? 1 : 0);
                 cond_.data_.wait(l, "pika::latch::wait");
 
                 PIKA_ASSERT(counter_.load(std::memory_order_relaxed) == 0);
@@ -137,6 +141,7 @@ namespace pika {
             std::unique_lock l(mtx_.data_);
 
             std::ptrdiff_t old_count = counter_.fetch_sub(update, std::memory_order_relaxed);
+            PIKA_VERIF_POST("latch.dec", this, old_count - update, update);
             PIKA_ASSERT(old_count >= update);
 
             if (old_count > update)
@@ -149,6 +154,7 @@ namespace pika {
             else
             {
                 notified_ = true;
+                PIKA_VERIF_POST("latch.notified", this, 1, 0);
 
                 // Note: we use notify_one repeatedly instead of notify_all as we
                 // know that our implementation of condition_variable::notify_one
